@@ -260,7 +260,18 @@ impl Walrus {
             } else {
                 // No persisted tail; init at current active block start
                 persisted_tail = Some((active_block.id, 0));
-                if checkpoint {
+                // Record that the reader moved onto this block, but never overwrite a position
+                // already recorded for it: that would throw the consumer back to the block start
+                let already_recorded = self
+                    .read_offset_index
+                    .read()
+                    .ok()
+                    .and_then(|idx| {
+                        idx.get(col_name)
+                            .map(|p| p.cur_block_idx == (active_block.id | TAIL_FLAG))
+                    })
+                    .unwrap_or(false);
+                if checkpoint && !already_recorded {
                     if self.should_persist(&mut info, true) {
                         if let Ok(mut idx_guard) = self.read_offset_index.write() {
                             let _ =
